@@ -50,6 +50,10 @@ def gen_cases(tier, seed):
             for layout in ("C", "F", "transposed-view", "strided-view"):
                 yield C(w="matrix", shape=[int(rng.integers(1, 6)), int(rng.integers(1, 6))], fam=fam, layout=layout)
             yield C(w="tensor", shape=[int(rng.integers(2, 5)), int(rng.integers(2, 5)), int(rng.integers(1, 4))], fam=fam, layout="C")
+            # a NumPy array of another order written as a "matrix" block: vectors (including length 1) and 3-way arrays
+            yield C(w="matrix", shape=[int(rng.integers(1, 7))], fam=fam, layout="C")
+            yield C(w="matrix", shape=[1], fam=fam, layout="C")
+            yield C(w="matrix", shape=[int(rng.integers(1, 4)), int(rng.integers(1, 4)), int(rng.integers(1, 4))], fam=fam, layout="C")
     yield C(w="tensor", shape=[40, 45, 40], fam="bits")        # > 1 MB of text: larger than any text-I/O buffer
     yield C(w="ktensor", shape=[300, 2, 150], fam="normal", R=60)
     yield C(w="sptensor", shape=[50, 60, 70], fam="bits", pattern="big", base=1)
